@@ -18,7 +18,7 @@ func init() {
 	register(&explore.Prop{
 		ID: "C13", Level: levelMC, Explorer: "E2 sequence explorer, state mode (BFS over the real private state of the reused objects)",
 		Rule: "slots = one reusable PostingsList and one reusable PostingsIterator, plus one long-lived Dictionary per (segment, field); LARGE-REUSE (a 2100-document adaptive segment with terms of cardinality 2100/1050/700/5 and a small one: every sequence of <=3 lookups with the list and the iterator reused); stored-field visits alternating between two same-shaped segments and a third (every sequence of <=4 visits); a doc-value reader kept across every order of <=5 visits over {0,5,1024,last} of four 1030/2049-document segments, compared with a fresh reader per visit; operation = lookup(segment in {built multi-chunk with locations, merged with 1-hit and general terms, empty batch}, field in {with terms, known without terms, unknown}, term in {general, single-doc (1-hit in the merged segment), absent}, except in {nil, first doc, all docs}, flags in {000,100,111}, consume in {0,1,all,all+1 postings}, prealloc PostingsList in {nil, slot}, prealloc PostingsIterator in {nil, slot}), plus reiterate: the list held in the slot since an earlier lookup is asked again for Count and an iterator (with or without the slot iterator) without a new lookup; BFS over states = (VerifStatePL(slot), VerifStateIter(slot)) to a fixpoint: every reuse history of any length over this alphabet; oracle: the complete result of each lookup equals the same lookup with fresh objects and the reference model; " +
-			"distinct/non-trivial = transitions whose lookup reuses an object last used for a different (segment, field, term, except, flags)",
+			"LARGE-REUSE serves a sequence from one long-lived Dictionary per segment and includes three single-run lists of different cardinality classes; LIVE-PAIR-BIG: a re-used iterator stepped k postings, a fresh one walking a whole list, the first continuing (location chunks of 150-300 KiB); DV-REUSE incl. chunks of 1.1 / 0.3 / 4.4 MiB; distinct/non-trivial = transitions whose lookup reuses an object last used for a different (segment, field, term, except, flags)",
 		Assumptions: append(append([]string{}, commonAssumptions...), "vellum.Reader state inside a long-lived Dictionary is not part of the state key (trusted to be result-neutral)"),
 		Budget:      qBudget, Run: runC13,
 	})
